@@ -1,0 +1,51 @@
+//! Verification hooks (compiled only with `--cfg linfa_verif`): read-only dump of a ball tree.
+//! Add-only; nothing here is reachable without the cfg flag.
+use super::{BallTreeIndex, BallTreeInner};
+use crate::distance::Distance;
+use linfa::Float;
+
+/// One node of the tree in pre-order. `members` holds the row positions stored in a leaf (in the
+/// order the leaf keeps them); it is empty for a branch.
+pub struct NodeDump<F> {
+    pub leaf: bool,
+    pub center: Vec<F>,
+    pub radius: F,
+    pub members: Vec<usize>,
+}
+
+fn walk<F: Float>(node: &BallTreeInner<'_, F>, out: &mut Vec<NodeDump<F>>) {
+    match node {
+        BallTreeInner::Leaf {
+            center,
+            radius,
+            points,
+        } => out.push(NodeDump {
+            leaf: true,
+            center: center.to_vec(),
+            radius: *radius,
+            members: points.iter().map(|p| p.1).collect(),
+        }),
+        BallTreeInner::Branch {
+            center,
+            radius,
+            left,
+            right,
+        } => {
+            out.push(NodeDump {
+                leaf: false,
+                center: center.to_vec(),
+                radius: *radius,
+                members: Vec::new(),
+            });
+            walk(left, out);
+            walk(right, out);
+        }
+    }
+}
+
+/// Pre-order dump of the nodes of a ball tree (center, radius, leaf members).
+pub fn dump<F: Float, D: Distance<F>>(index: &BallTreeIndex<'_, F, D>) -> Vec<NodeDump<F>> {
+    let mut out = Vec::new();
+    walk(&index.tree, &mut out);
+    out
+}
